@@ -31,7 +31,11 @@ func runC10(w *World) {
 		c10BeforeServe(w)
 		return
 	}
-	ch := NewChaos(w, ChaosOpts{MaxPeers: 3, Churn: true, Deviations: w.Draw(3, "dev") != 0, AddInTasks: true, OnlyReAdd: action != "close"})
+	maxPeers := 3
+	if w.Tier == "thorough" {
+		maxPeers = 4
+	}
+	ch := NewChaos(w, ChaosOpts{MaxPeers: maxPeers, Churn: true, Deviations: w.Draw(3, "dev") != 0, AddInTasks: true, OnlyReAdd: action != "close"})
 	if ch == nil {
 		return
 	}
